@@ -429,6 +429,11 @@ func c13Elements(c *Ctx, cd *c13Codec, r *Rng) []any {
 			}
 		}
 	}
+	// boundary coordinates: points whose wire coordinate has its top bits set, lies next to p, next to a
+	// power of two, or is the smallest one on the curve
+	for _, bp := range cd.boundaryPoints(c) {
+		pts = append(pts, bp)
+	}
 	if cd.fam == "edwards" || cd.fam == "mont" {
 		if cd.full == nil { // full curve types: small-order points and mixed-order points
 			for _, e := range ed25519TorsionEnc() {
@@ -450,6 +455,168 @@ func c13Elements(c *Ctx, cd *c13Codec, r *Rng) []any {
 		}
 	}
 	return pts
+}
+
+// c13Seek is a start value for the wire coordinate of a format (x; Edwards: y; curve25519: u) and the
+// direction in which the generator searches for the nearest value that belongs to a curve point.
+type c13Seek struct {
+	from *big.Int
+	step int64
+}
+
+// boundarySeeks lists the boundary regions of the coordinate range [0, p): every single high bit
+// (2^k for the top bit positions of the field and of the byte string), the middle of [2^(bits-1), p),
+// the values next to p, next to the top byte boundary, and the smallest coordinates.
+func (cd *c13Codec) boundarySeeks(thorough bool) []c13Seek {
+	bits := cd.p.BitLen()
+	one := big.NewInt(1)
+	var out []c13Seek
+	pm1 := new(big.Int).Sub(cd.p, one)
+	out = append(out, c13Seek{big.NewInt(0), 1}, c13Seek{pm1, -1})
+	nBits := 4
+	if thorough {
+		nBits = 16
+	}
+	for k := bits - 1; k > bits-1-nBits && k > 1; k-- {
+		v := new(big.Int).Lsh(one, uint(k))
+		if v.Cmp(cd.p) < 0 {
+			out = append(out, c13Seek{v, 1})
+		}
+		out = append(out, c13Seek{new(big.Int).Sub(v, one), -1}) // all lower bits set
+	}
+	hi := new(big.Int).Lsh(one, uint(bits-1))
+	mid := new(big.Int).Add(hi, cd.p)
+	mid.Rsh(mid, 1)
+	out = append(out, c13Seek{mid, 1})
+	// top byte of the encoding = 01 / = 00 with the rest ff
+	tb := new(big.Int).Lsh(one, uint(8*(cd.cb-1)))
+	out = append(out, c13Seek{tb, 1}, c13Seek{new(big.Int).Sub(tb, one), -1})
+	if thorough {
+		for k := 8; k < bits-1; k += 8 { // every byte boundary
+			v := new(big.Int).Lsh(one, uint(k))
+			out = append(out, c13Seek{v, 1}, c13Seek{new(big.Int).Sub(v, one), -1})
+		}
+	}
+	return out
+}
+
+// otherCoord returns, for a wire coordinate v, the second affine coordinate w of a curve point (as the
+// arguments of FromAffine expect them), or nil when v is not the coordinate of a point.  Generator side only.
+func (cd *c13Codec) otherCoord(v *big.Int) *big.Int {
+	if cd.fam == "edwards" {
+		// wire coordinate is y: -x² + y² = 1 + d x² y²  ⇒  x² = (y² - 1)/(d y² + 1)
+		p := cd.p
+		d := hexBig("52036cee2b6ffe738cc740797779e89800700a4d4141d8ab75eb4dca135978a3")
+		yy := new(big.Int).Mul(v, v)
+		num := new(big.Int).Sub(yy, big.NewInt(1))
+		num.Mod(num, p)
+		den := new(big.Int).Add(new(big.Int).Mul(d, yy), big.NewInt(1))
+		den.Mod(den, p)
+		inv := new(big.Int).ModInverse(den, p)
+		if inv == nil {
+			return nil
+		}
+		return sqrtMod(new(big.Int).Mul(num, inv), p)
+	}
+	return cd.someY(v)
+}
+
+// pointsAt builds the points (both signs) whose wire coordinate is v through the public constructors.
+func (cd *c13Codec) pointsAt(v *big.Int) []any {
+	var out []any
+	switch cd.fam {
+	case "sec1", "pasta":
+		for _, odd := range []bool{false, true} {
+			if q, err := cd.affx([]*big.Int{v}, odd); err == nil {
+				out = append(out, q)
+			}
+		}
+	case "edwards", "mont":
+		w := cd.otherCoord(v)
+		if w == nil {
+			return nil
+		}
+		for _, ww := range []*big.Int{w, new(big.Int).Mod(new(big.Int).Neg(w), cd.p)} {
+			x, y := v, ww // curve25519: FromAffine(u, v)
+			if cd.fam == "edwards" {
+				x, y = ww, v
+			}
+			if q, err := cd.aff([]*big.Int{x}, []*big.Int{y}); err == nil {
+				out = append(out, q)
+			}
+			if w.Sign() == 0 {
+				break
+			}
+		}
+	}
+	return out
+}
+
+// boundaryCoords searches from every seek for the nearest coordinate that belongs to a point of the
+// curve type (full-curve types with a constructor from one coordinate only; for the subgroup types the
+// coordinate alone does not determine membership).  Returns the coordinates found.
+func (cd *c13Codec) boundaryCoords(c *Ctx) []*big.Int {
+	if cd.full != nil || cd.comps != 1 || cd.fam == "bls1" {
+		return nil
+	}
+	seen := map[string]bool{}
+	var out []*big.Int
+	for _, sk := range cd.boundarySeeks(c.Thorough()) {
+		v := new(big.Int).Set(sk.from)
+		for tries := 0; tries < 64; tries++ {
+			if v.Sign() < 0 || v.Cmp(cd.p) >= 0 {
+				break
+			}
+			ok := false
+			safely(func() string { ok = len(cd.pointsAt(v)) > 0; return "" })
+			if ok {
+				if !seen[v.Text(16)] {
+					seen[v.Text(16)] = true
+					out = append(out, new(big.Int).Set(v))
+				}
+				break
+			}
+			v.Add(v, big.NewInt(sk.step))
+		}
+	}
+	return out
+}
+
+func (cd *c13Codec) boundaryPoints(c *Ctx) []any {
+	var pts []any
+	for _, v := range cd.boundaryCoords(c) {
+		for _, q := range cd.pointsAt(v) {
+			pts = append(pts, q)
+			c.Count(cd.name + ".boundarypoint")
+			if v.BitLen() == cd.p.BitLen() {
+				c.Count(cd.name + ".boundarypoint.topbit")
+			}
+		}
+	}
+	return pts
+}
+
+// boundaryStrings: coordinates for the byte-string side — the boundary coordinates found on the curve
+// and the raw boundary values themselves (mostly off the curve; x+k·p is added by the caller).
+func (cd *c13Codec) boundaryRaw(c *Ctx) []*big.Int {
+	seen := map[string]bool{}
+	var out []*big.Int
+	add := func(v *big.Int) {
+		if v.Sign() >= 0 && v.Cmp(cd.p) < 0 && !seen[v.Text(16)] {
+			seen[v.Text(16)] = true
+			out = append(out, v)
+		}
+	}
+	for _, v := range cd.boundaryCoords(c) {
+		add(v)
+	}
+	for i, sk := range cd.boundarySeeks(c.Thorough()) {
+		if !c.Thorough() && i >= 10 {
+			break
+		}
+		add(sk.from)
+	}
+	return out
 }
 
 func (cd *c13Codec) safeEnc(format string, p any) string {
@@ -715,6 +882,16 @@ func c13DecodeSide(c *Ctx, cd *c13Codec, r *Rng, pts []any) {
 			v[j] = new(big.Int).Sub(cd.p, big.NewInt(int64(1+r.IntN(20))))
 		}
 		xs = append(xs, v)
+	}
+	for i, v := range cd.boundaryRaw(c) { // boundary coordinates (on and off the curve)
+		c.Count("dec." + cd.name + ".boundarycoord")
+		if cd.comps == 1 {
+			xs = append(xs, []*big.Int{v})
+		} else if i%2 == 0 {
+			xs = append(xs, []*big.Int{v, big.NewInt(int64(r.IntN(3)))})
+		} else {
+			xs = append(xs, []*big.Int{big.NewInt(int64(r.IntN(3))), v})
+		}
 	}
 	for _, x := range xs {
 		for k := 0; k < 5; k++ {
